@@ -265,6 +265,9 @@ def main_wrapper(pid, level, run):
     chk = Check(pid, tier, level, f"./check {pid} --tier {tier}")
     try:
         run(chk)
+        from . import witness
+
+        witness.run(chk)
         code = chk.finish()
     except Exception:  # noqa: BLE001
         traceback.print_exc()
